@@ -266,6 +266,25 @@ static void worker (long start, void *user)
   g_idx = 0;
   orc_init ();
   v_ops_init ();
+  /* LQ: two 64-bit literals in one function whose spellings (decimal and hex) share a long prefix */
+  {
+    static const int64_t pairs[][2] = { { 0x7fffffffffffffffLL, 0x7ffffffffffffffeLL }, { 1000000000001LL, 1000000000002LL },
+      { 0x123456789abcdef0LL, 0x123456789abcdef1LL }, { -1000000000001LL, -1000000000002LL } };
+    int k;
+    for (k = 0; k < 4; k++) {
+      VProg p;
+      int d1, d2, s1, s2, c1, c2;
+      memset (&p, 0, sizeof (p));
+      d1 = vprog_addvar (&p, VK_D, 8); s1 = vprog_addvar (&p, VK_S, 8);
+      d2 = vprog_addvar (&p, VK_D, 8); s2 = vprog_addvar (&p, VK_S, 8);
+      c1 = vprog_addvar (&p, VK_C, 8); p.v[c1].cval = pairs[k][0];
+      c2 = vprog_addvar (&p, VK_C, 8); p.v[c2].cval = pairs[k][1];
+      vprog_addinsn (&p, "andq", 0, 3, d1, s1, c1, -1);
+      vprog_addinsn (&p, "xorq", 0, 3, d2, s2, c2, -1);
+      snprintf (p.name, sizeof (p.name), "vLQ_%d", k);
+      on_prog (&p, &start);
+    }
+  }
   if (strstr (g_levels, "L1")) pgen_L1 (on_prog, &start, PG_INT | PG_FLOAT);
   if (strstr (g_levels, "L2")) pgen_L2 (on_prog, &start, PG_INT | PG_FLOAT);
   if (strstr (g_levels, "L3")) { pgen_L3 (on_prog, &start, PG_INT); pgen_L3 (on_prog, &start, PG_FLOAT); }
